@@ -612,7 +612,10 @@ def guards(chk, w):
         dflt_false = any(a.kind == "const" and a.info.get("v") == 0 for _b, t in uo for a in t.args[1:])
         allc = any(re.search(r"::all$", t.callee.target_p()) for c in [dm[0]] for _b, t in c.body.calls()
                    if t.callee.indirect is None)
-        if okd and dflt_false and allc:
+        if not (okd and dflt_false and allc) and _deps_mined_loop(w, dm[0]):
+            chk.ok("GUARD", "deps_mined: a loop over the dependencies that goes on only past a found, Mined one; "
+                   "`true` only after the last", sample=True)
+        elif okd and dflt_false and allc:
             chk.ok("GUARD", "deps_mined: all dependencies, each Mined, unknown ids count as not mined",
                    sample=True)
         else:
@@ -621,6 +624,56 @@ def guards(chk, w):
                      dm[0].span.loc())
     else:
         chk.fail("GUARD", "deps_mined/missing", "deps_mined not found")
+
+
+def _deps_mined_loop(w, f):
+    """the explicit-loop form of deps_mined: `for dep in depends_on { match find(dep) { Some(t) if Mined => {}, _ =>
+    return false } } true` - (1) an id that names no transaction returns false, (2) every state but Mined returns
+    false, (3) `true` is returned only when the iteration over the parameter is exhausted"""
+    import guards as G
+    b = f.body
+    du = defuse.DefUse(b)
+    finds = [(bb, t) for bb, t in b.calls() if t.callee.indirect is None and not b.blocks[bb].cleanup and
+             re.search(r"Iterator>?::find(::<.*>)?$", t.callee.target_p())]
+    if len(finds) != 1:
+        return False
+    res = S.after_call(b, finds[0][0], S.E("Option", "None"))
+    if res is None or not res.returns or {rv for _b, rv in res.returns} - {"bool:False", "const:0"}:
+        return False
+    variants = [v["name"] for v in (w.adts.get(TXS) or {"variants": []})["variants"]]
+    if "Mined" not in variants:
+        return False
+    mined = variants.index("Mined")
+    sws = []
+    for bi, blk in enumerate(b.blocks):
+        t = blk.term
+        if blk.cleanup or t.kind != "switch" or t.discr is None or t.discr.kind not in ("copy", "move"):
+            continue
+        o = du.origin(t.discr)
+        if o[0] == "disc" and defuse.show(o[1]).endswith(".state"):
+            sws.append((bi, t))
+    if len(sws) != 1:
+        return False
+    bi, t = sws[0]
+    others = [tb for v, tb in list(t.arms) + [("else", t.otherwise)] if tb is not None and v != mined]
+    if not others or mined not in [v for v, _tb in t.arms]:
+        return False
+    for tb in others:
+        r = S.explore(b, tb, {})
+        if not r.returns or {rv for _b, rv in r.returns} - {"bool:False", "const:0"}:
+            return False
+    # `true` only on the exhausted-iterator edge of the loop over the parameter
+    trues = [x for x, blk in enumerate(b.blocks) if not blk.cleanup for st in blk.stmts
+             if st.kind == "=" and st.place.local == 0 and not st.place.proj and
+             not (st.rv.kind == "use" and st.rv.ops[0].kind == "const" and st.rv.ops[0].info.get("v") == 0)]
+    if len(trues) != 1:
+        return False
+    for sw, v, _tb in G.edge_conditions(b, trues[0]):
+        tm = b.blocks[sw].term
+        o = du.origin(tm.discr) if tm.discr is not None and tm.discr.kind in ("copy", "move") else None
+        if o and o[0] == "disc" and v == 0 and re.search(r"^next\(&.*into_iter\(arg1\)", defuse.show(o[1])):
+            return True
+    return False
 
 
 # ---------------------------------------------------------------------- COLS
